@@ -68,7 +68,8 @@ VChunk(ev) ==
        ELSE IF ~IsVal(tw) THEN "rechunk:returns"
        ELSE IF IsEmptyLoc(tw[2]) THEN "rechunk:nonempty"
        ELSE IF [i \in DOMAIN Bases(tw[2]) |-> Bases(tw[2])[i] + ws2] # inside2 THEN
-            (IF SelfOverlap(l) THEN "lift:selfoverlap-order" ELSE "rechunk:bases")
+            (IF SelfOverlap(l) /\ BagOf([i \in DOMAIN Bases(tw[2]) |-> Bases(tw[2])[i] + ws2]) = BagOf(inside2)
+             THEN "lift:selfoverlap-order" ELSE "rechunk:bases")
        ELSE "ok"
 
 (* ["lift1", how, root chars, Ps, child, oneStep outcome] : the top level was DERIVED by the library (reverse_complement,
@@ -77,7 +78,28 @@ VChunk(ev) ==
 VLift1(ev) == LET Ps == ev[4] d == Len(ev[4]) IN
   LiftedOK(ev[6], Ps, ev[5], d, d - 1, ev[3], FALSE, "derived-level:lift-one", 0)
 
-Verdict(ev) == CASE ev[1] = "lift1" -> VLift1(ev) [] ev[1] = "lift" -> VLift(ev) [] ev[1] = "chunk" -> VChunk(ev) [] OTHER -> "unknown-op"
+(* ["nchunk", root chars, as, ae, Ps, child, ws, we, outcome <<"v", loc, pid, chars>>, targetKind] : the child sits
+   Len(Ps) coordinate systems below sequence chunk A = [as, ae) (plus strand) of the chromosome; moved with the static
+   liftover_location_to_seq_chunk_parent onto chunk B = [ws, we) (or the whole chromosome): composition of every level,
+   the part inside B, relative to B; strand = product; same residues *)
+VNested(ev) ==
+  LET root == ev[2] as == ev[3] Ps == ev[5] child == ev[6] ws == ev[7] we == ev[8] o == ev[9] d == Len(ev[5])
+      onA == LiftBases(Bases(child), Ps, d, 0)
+      onChrom == [i \in DOMAIN onA |-> onA[i] + as]
+      inside == SelectSeq(onChrom, LAMBDA p : ws <= p /\ p < we)
+      st == LiftStrand(St(child), Ps, d, 0)
+      Cmpl(ch) == CASE ch = "A" -> "T" [] ch = "T" -> "A" [] ch = "C" -> "G" [] ch = "G" -> "C"
+      chars == [i \in DOMAIN inside |-> IF st = "-" THEN Cmpl(root[inside[i] + 1]) ELSE root[inside[i] + 1]] IN
+  IF inside = <<>> THEN Ok(Rejected(o) \/ (IsVal(o) /\ IsEmptyLoc(o[2])), "nested-chunk:outside-is-empty-or-refused")
+  ELSE IF ~IsVal(o) THEN "nested-chunk:returns"
+  ELSE LET r == o[2] IN
+    IF IsEmptyLoc(r) THEN "nested-chunk:nonempty"
+    ELSE IF St(r) # st THEN "nested-chunk:strand"
+    ELSE IF [i \in DOMAIN Bases(r) |-> Bases(r)[i] + ws] # inside THEN "nested-chunk:bases"
+    ELSE IF o[4] # chars THEN "nested-chunk:sequence-preserved"
+    ELSE "ok"
+
+Verdict(ev) == CASE ev[1] = "nchunk" -> VNested(ev) [] ev[1] = "lift1" -> VLift1(ev) [] ev[1] = "lift" -> VLift(ev) [] ev[1] = "chunk" -> VChunk(ev) [] OTHER -> "unknown-op"
 Bad == {i \in DOMAIN Trace : Verdict(Trace[i]) # "ok"}
 ASSUME \A i \in Bad : PrintT(<<"BAD", i, Verdict(Trace[i])>>)
 ASSUME PrintT(<<"DONE", Len(Trace), Cardinality(Bad)>>)
